@@ -299,6 +299,11 @@ func runC06(c *core.Ctx) {
 			if !registered {
 				problems = append(problems, "the opaque written to the backend is not registered in the reply table (responses[opaque]) in the same case")
 			}
+			// the opaque written is the running counter itself (phis and constant increments of it), never an offset
+			// of the counter by something else - the counter would not account for the opaques used that way
+			if why := counterOnly(opq); why != "" {
+				problems = append(problems, why)
+			}
 			// the opaque advances in every loop around the write
 			for _, l := range loops {
 				if !l.Blocks[ins.Block()] {
@@ -387,6 +392,126 @@ func runC06(c *core.Ctx) {
 
 	// ---- R6.4
 	runR64(c, rd)
+
+	// ---- R6.5
+	c.Rule("R6.5", "state that suppresses hand-back in the retrying multi-key functions (the 'this attempt failed' flag) is reset for every attempt: it is never carried from one retry into the next", 2)
+	for _, fn := range submitters(c) {
+		if fn.Signature.Results().Len() > 0 {
+			continue
+		}
+		checkRetryFlags(c, fn)
+	}
+}
+
+// checkRetryFlags (R6.5): boolean flags that guard the sends to the caller must be initialised inside the retry loop.
+func checkRetryFlags(c *core.Ctx, fn *ssa.Function) {
+	loops := ssax.Loops(fn)
+	var sub ssa.Instruction
+	ssax.Instrs(fn, func(ins ssa.Instruction) {
+		if isSubmit(ssax.CallOf(ins)) {
+			sub = ins
+		}
+	})
+	if sub == nil {
+		return
+	}
+	var retry *ssax.Loop
+	for _, l := range loops {
+		if l.Blocks[sub.Block()] && countedLoop(l) {
+			retry = l
+		}
+	}
+	key := core.FuncName(fn) + "#per-attempt-flags"
+	if retry == nil {
+		c.Undecided("R6.5", key, c.P.Pos(sub.Pos()), "no bounded retry loop around the submit")
+		return
+	}
+	// flags guarding sends to the caller
+	flags := map[*ssa.Phi]bool{}
+	ssax.Instrs(fn, func(ins ssa.Instruction) {
+		snd, ok := ins.(*ssa.Send)
+		if !ok {
+			return
+		}
+		if _, isParam := snd.Chan.(*ssa.Parameter); !isParam {
+			return
+		}
+		for _, ec := range ssax.DomConds(ins.Block()) {
+			if phi, ok := ec.Cond.(*ssa.Phi); ok && types.TypeString(phi.Type(), nil) == "bool" {
+				flags[phi] = true
+			}
+		}
+	})
+	var bad []string
+	n := 0
+	for phi := range flags {
+		n++
+		// follow entry operands outwards: the value the flag has when an attempt starts
+		cur := phi
+		for depth := 0; depth < 4; depth++ {
+			if cur.Block() == retry.Header {
+				bad = append(bad, fmt.Sprintf("flag %s is carried around the retry loop (phi at %s): once set it suppresses every later attempt's replies", phi.Comment, c.P.Pos(firstPos(retry.Header))))
+				break
+			}
+			var next *ssa.Phi
+			for i, e := range cur.Edges {
+				pred := cur.Block().Preds[i]
+				l := ssax.InnermostLoop(loops, cur.Block())
+				if l != nil && l.Blocks[pred] && l.Header == cur.Block() {
+					continue // back edge of the inner loop
+				}
+				if p2, ok := e.(*ssa.Phi); ok {
+					next = p2
+				}
+			}
+			if next == nil {
+				break
+			}
+			cur = next
+		}
+	}
+	if n == 0 {
+		c.OK("R6.5", key, c.P.Pos(sub.Pos()), "no flag guards the hand-back")
+		return
+	}
+	c.Check(len(bad) == 0, "R6.5", key, c.P.Pos(sub.Pos()), fmt.Sprintf("%d hand-back guard flag(s), each initialised inside the retry loop", n), strings.Join(uniq(bad), "; "))
+}
+
+// counterOnly: v is built from phis and "+ constant" steps only.
+func counterOnly(v ssa.Value) string {
+	seen := map[ssa.Value]bool{}
+	var walk func(v ssa.Value) string
+	walk = func(v ssa.Value) string {
+		if v == nil || seen[v] {
+			return ""
+		}
+		seen[v] = true
+		switch x := v.(type) {
+		case *ssa.Phi:
+			for _, e := range x.Edges {
+				if w := walk(e); w != "" {
+					return w
+				}
+			}
+			return ""
+		case *ssa.BinOp:
+			if x.Op == token.ADD {
+				if _, ok := ssax.ConstInt(x.Y); ok {
+					return walk(x.X)
+				}
+				if _, ok := ssax.ConstInt(x.X); ok {
+					return walk(x.Y)
+				}
+			}
+			return "the opaque is computed as an offset (" + x.X.Name() + " " + x.Op.String() + " " + x.Y.Name() + ") of the batch counter instead of advancing the counter: later requests of the batch reuse opaques that are already taken"
+		case *ssa.Convert:
+			return walk(x.X)
+		case *ssa.Call, *ssa.Const:
+			return "" // the random base of the batch
+		}
+		return ""
+	}
+	return walk(v)
 }
 
 func firstPos(b *ssa.BasicBlock) token.Pos {
